@@ -1,37 +1,98 @@
 /-
 C04 line-protocol driver.
-  loop <newton|bregman> <gen|asFound|repaired> <numIter> <n> ev..      ev ∈ ok0 ok1 fb fa nan
+  loop <newton|bregman> <gen|asFound> <numIter> <n> ev..
+      ev ∈ ok0 | ok1 | nan | f:<branch>:<label>   (fault at the first statement of that body carrying the label)
       → `<converged 0/1 | error class> <iter|none> <distTag|none> <solTag> <stopped>`
+  points <newton|bregman>  → the generated bodies, `branch: label/effect ...`
 -/
 import DarsiaModel.Basic
 import DarsiaModel.SolveLoop
+import DarsiaModel.WassersteinAux
 import DarsiaGen.SolveLoopGen
 open Darsia Darsia.SolveLoop
 
-def parseEvent : String → Option Event
-  | "ok0" => some (.ok false) | "ok1" => some (.ok true) | "fb" => some .failBeforeUpdate
-  | "fa" => some .failAfterUpdate | "nan" => some .nan | _ => none
+def parseLabel : String → Option Label
+  | "assemble" => some .assemble | "regularisation" => some .regularisation | "linearSolve" => some .linearSolve
+  | "shrink" => some .shrink | "anderson" => some .anderson | "distance" => some .distance
+  | "nanCheck" => some .nanCheck | "history" => some .history | "timings" => some .timings
+  | "criteria" => some .criteria | "commit" => some .commit | "setSolution" => some .setSolution
+  | "setDistance" => some .setDistance | "other" => some .other | _ => none
 
-def showOptNat : Option Nat → String
-  | none => "none" | some n => toString n
+def showLabel : Label → String
+  | .assemble => "assemble" | .regularisation => "regularisation" | .linearSolve => "linearSolve"
+  | .shrink => "shrink" | .anderson => "anderson" | .distance => "distance" | .nanCheck => "nanCheck"
+  | .history => "history" | .timings => "timings" | .criteria => "criteria" | .commit => "commit"
+  | .setSolution => "setSolution" | .setDistance => "setDistance" | .other => "other"
+
+def showEffect : Effect → String
+  | .none => "-" | .writeSol => "sol" | .writeDist => "dist" | .criteria => "crit"
+
+def parseEvent (c : LoopCode) (t : String) : Option Event :=
+  match t with
+  | "ok0" => some (.ok false) | "ok1" => some (.ok true) | "nan" => some .nan
+  | _ => match t.splitOn ":" with
+    | ["f", b, l] => do
+      let b ← b.toNat?
+      let l ← parseLabel l
+      let body := c.bodies.getD b []
+      let idx := labelIndex c b l
+      if idx < body.length then some (.fail b idx) else none
+    | _ => none
+
+def parseMethod : String → Option Method
+  | "newton" => some .newton | "bregman" => some .bregman | _ => none
 
 def handleLoop : List String → Option String
   | m :: sh :: rest => do
-    let m ← (match m with | "newton" => some Method.newton | "bregman" => some Method.bregman | _ => none)
-    let shape ← (match sh with
-      | "gen" => some (Gen.shapeOf m) | "asFound" => some Shape.asFound | "repaired" => some Shape.repaired | _ => none)
+    let m ← parseMethod m
+    let code ← (match sh with
+      | "gen" => some (Gen.codeOf m)
+      | "asFound" => some (match m with | .newton => asFoundNewton | .bregman => asFoundBregman)
+      | _ => none)
     let ((n, evs), _) ← (do let n ← P.nat; let es ← P.list P.tok; P.done; pure (n, es) : P _).run rest
-    let evs ← evs.mapM parseEvent
+    let evs ← evs.mapM (parseEvent code)
     let env := envOf evs
-    let r := run shape m n env
-    let c := match converged shape n env r with
+    let r := run code n env
+    let c := match converged code n env r with
       | .ok b => showBool b
       | .error e => e.show
-    pure s!"{c} {showOptNat r.iter} {showOptNat r.distTag} {r.solTag} {showBool r.stopped}"
+    let showO : Option Nat → String := fun o => match o with | none => "none" | some v => toString v
+    pure s!"{c} {showO r.iter} {showO r.distTag} {r.solTag} {showBool r.stopped}"
   | _ => none
 
+def handlePoints : List String → Option String
+  | [m] => do
+    let m ← parseMethod m
+    let c := Gen.codeOf m
+    let bodies := c.bodies.map fun b => " ".intercalate (b.map fun s => showLabel s.label ++ "/" ++ showEffect s.effect)
+    pure (s!"sound={showBool c.sound} | " ++ " | ".intercalate bodies)
+  | _ => none
+
+/-- `aux <dim> shape.. <dim> h.. <nc> cellweights.. <nq> wq.. <nq*dim> nodes.. <n> x..`
+→ `flux (cell-major F order, axis minor) | weighted flux | pressure (F order) | per cell, per quadrature point: squared norm of
+the weighted cell vector | weights` -/
+def handleAux (rest : List String) : Option String := do
+  let ((shape, h, cw, wq, nodes, x), _) ← (do
+    let s ← P.list P.nat; let h ← P.list P.rat; let cw ← P.list P.rat; let wq ← P.list P.rat
+    let nodes ← P.list P.rat; let x ← P.list P.rat; P.done
+    pure (s, h, cw, wq, nodes, x) : P _).run rest
+  let dim := shape.length
+  let xf : Nat → Rat := fun i => x.getD i 0
+  let wgt : List Nat → Nat → Rat := fun idx _ => cw.getD (encF shape idx) 1
+  let ptq : Nat → List Rat := fun q => (List.range dim).map fun a => nodes.getD (q * dim + a) 0
+  let o := WAux.callOut (fun _ => 0) shape h wq.length (fun q => wq.getD q 0) ptq wgt xf
+  let cells := boxF shape
+  let flux := cells.flatMap fun idx => (List.range dim).map fun a => o.flux idx a
+  let wflux := cells.flatMap fun idx => (List.range dim).map fun a => o.weightedFlux idx a
+  let press := cells.map o.pressure
+  let sq := cells.flatMap fun idx => (List.range wq.length).map fun q =>
+    WAux.sqNorm dim (cellVec shape xf wgt (ptq q) idx)
+  pure s!"{showRats flux} | {showRats wflux} | {showRats press} | {showRats sq}"
+
 def dispatch : List String → Option String
+  | "aux" :: rest => handleAux rest
   | "loop" :: rest => handleLoop rest
+  | "points" :: rest => handlePoints rest
   | _ => none
 
 def main : IO Unit := runDriver dispatch
